@@ -164,6 +164,20 @@ def builds(table, seed, tier, prefix='b'):
             n += 1
 
 
+def rawhdrs(seed, n, prefix='h'):
+    """Packets whose rendered raw CMP / message headers are compared with the layout."""
+    import wire
+    rng = random.Random(seed + 77)
+    for i in range(n):
+        ops = []
+        for _ in range(20):
+            p = wire.packet(rng, rng.choice(wire.KINDS), rng.choice([1, 8, 40, 300]), rng.randrange(1, 256))
+            p['fl'] = rng.randrange(256)
+            p['dev'], p['st'], p['seq'] = rng.randrange(65536), rng.randrange(256), rng.randrange(65536)
+            ops.append({'op': 'rawhdr', 'pkt': p})
+        yield {'id': '%s%d' % (prefix, i), 'comp': 'obj', 'ops': ops}
+
+
 def write(path, episodes):
     n = 0
     with open(path, 'w') as f:
